@@ -33,7 +33,7 @@ META = "<x>&'\""
 # ---------------------------------------------------------------------------
 
 MC_INVS = ["C24_TypeOK", "C24_NoRawMetaOutsideTags", "C24_HrefQuotedNoSpace", "C24_AnchorsWellFormed",
-           "C24_RunMatchesMachine", "C24_EscIsAccepted"]
+           "C24_RunMatchesMachine", "C24_EscIsAccepted", "C24_JsonIgnoresSafetyMark"]
 
 
 def model_check(tier):
@@ -64,9 +64,28 @@ def model_check(tier):
 # case generation
 # ---------------------------------------------------------------------------
 
-def case(f, inp, args=None, tmpl=None, pos=(), kw=None, markup=False):
-    return {"f": f, "inp": inp, "args": dict(args or {}), "tmpl": tmpl or f"v|{f}", "pos": list(pos),
-            "kw": dict(kw or {}), "markup": markup}
+def case(f, inp, args=None, tmpl=None, pos=(), kw=None, markup=False, src=None, whole=None):
+    c = {"f": f, "inp": inp, "args": dict(args or {}), "tmpl": tmpl or f"v|{f}", "pos": list(pos),
+         "kw": dict(kw or {}), "markup": markup}
+    if src:
+        c["src"] = src          # template form through which the value reaches the filter (HtmlScan!Sources)
+    if whole:
+        c["whole"] = whole      # the whole template source (instead of "{{ tmpl }}")
+    return c
+
+
+# template forms of HtmlScan!Reaches; PRE / POST is literal template data around the value
+PRE, POST = "</script><i t='&'>", "&amp;</i>'"
+TOJSON_FORMS = {
+    "safe": "{{ v|safe|tojson }}",
+    "string": "{{ v|string|tojson }}",
+    "escape": "{{ v|e|tojson }}",
+    "forceescape": "{{ v|forceescape|tojson }}",
+    "capture": "{% set w %}" + PRE + "{{ v }}" + POST + "{% endset %}{{ w|tojson }}",
+    "macro": "{% macro m(x) %}" + PRE + "{{ x }}" + POST + "{% endmacro %}{{ m(v)|tojson }}",
+    "callblock": "{% macro m() %}{{ caller()|tojson }}{% endmacro %}{% call m() %}" + PRE + "{{ v }}" + POST
+                 + "{% endcall %}",
+}
 
 
 def strings(alpha, maxlen):
@@ -108,6 +127,19 @@ def gen_cases(tier, seed):
     vals += [[], {}, [[]], [{}], {"a": []}, [[["<"]]], {"b": 1, "a": 2, "B": 3, "A": 4}]
     for v in vals:
         add(case("tojson", v))
+    # values that carry a safety mark: Markup handed over as data (top level, nested, as keys) and
+    # strings that reach the filter through |safe, |escape, captured blocks, macro / call results
+    mstrs = strs[:57] + sample(strs[57:], 15) + ["</script>", "a\nb", "</script><script>alert('x')</script>",
+                                                  "<b>'a' & b</b>", "&amp;&lt;"]
+    for t in mstrs:
+        add(case("tojson", Markup(t)))
+    for t in sample(mstrs, 30):
+        add(case("tojson", [Markup(t), t]))
+        add(case("tojson", {Markup(t): Markup(t), "k": [Markup(t)]}))
+    for t in sample(mstrs, 24 if quick else len(mstrs)):
+        for src, whole in TOJSON_FORMS.items():
+            for inp in (t, Markup(t)):
+                add(case("tojson", inp, src=src, whole=whole))
 
     # ---- xmlattr
     keys = ["a", "b-c", "x y", "t\tb", "n\nl", "f\x0cf", "c\rr", "v\x0bt", "s/l", "g>t", "e=q", 'q"t', "l<t",
@@ -214,7 +246,7 @@ def gen_cases(tier, seed):
 
 
 EXCLUDED = [
-    "Markup (declared-safe) values handed to xmlattr / urlize / tojson",
+    "Markup (declared-safe) values handed to xmlattr / urlize",
     "xmlattr keys containing non-ASCII whitespace; empty keys",
     "tojson: floats, non-string dict keys, non-ASCII text, control characters other than \\n, indent argument",
     "Markup-argument rule: arguments that are themselves Markup; replace with an empty `old`; truncate "
@@ -270,12 +302,15 @@ def observe_case(c):
                     out, name = {"t": "x", "v": type(e).__name__}, "call"
             else:
                 try:
-                    out = fu.enc(drv.via_render(envk, "{{ " + c["tmpl"] + " }}", variables))
+                    out = fu.enc(drv.via_render(envk, c.get("whole") or "{{ " + c["tmpl"] + " }}", variables))
                 except Exception as e:  # noqa
                     out = {"t": "x", "v": type(e).__name__}
                 name = "render"
             nruns += 1
             if f == "tojson":
+                src = c.get("src") if via == "render" else None
+                x["src"] = {"t": "c", "v": src or "data"}
+                x["pre"], x["post"] = fu.enc(PRE if src else ""), fu.enc(POST if src else "")
                 try:
                     x["back"] = fu.enc(json.loads(fu.dec(out))) if out["t"] in ("s", "m") else out
                 except Exception as e:  # noqa
@@ -289,7 +324,8 @@ def observe_case(c):
             if g is None:
                 g = groups[key] = {"f": f, "name": name, "inp": inp_e, "args": args_e, "out": out, "inp2": inp2,
                                    "args2": args2, "x": x, "modes": [],
-                                   "how": {"tmpl": c["tmpl"], "pos": c["pos"], "kw": c["kw"], "markup": c["markup"]}}
+                                   "how": {"tmpl": c["tmpl"], "pos": c["pos"], "kw": c["kw"], "markup": c["markup"],
+                                           "src": c.get("src"), "whole": c.get("whole")}}
             g["modes"].append(f"{envk}/{via}")
     return list(groups.values()), nruns
 
@@ -336,6 +372,8 @@ def report(ck, rejected):
     for rec, why, expected in rejected:
         args = {k: fu.show(v) for k, v in rec["args"].items() if v["t"] != "n"}
         what = (f"{rec['f']}({args}) on {fu.show(rec['inp'])} [{rec['name']}: {', '.join(rec['modes'])}]: ")
+        if rec["how"].get("whole") and rec["name"] == "render":
+            what = f"template {rec['how']['whole']!r} with v = {fu.show(rec['inp'])} [{', '.join(rec['modes'])}]: "
         if rec["f"] == "urlize":
             what += f"output is not accepted by the HtmlScan automaton: {fu.show(rec['out'])}"
         elif why == "plain-arg-trusted":
@@ -404,5 +442,7 @@ def replay(ck, rec):
     how = r["how"]
     c = {"f": r["f"], "inp": fu.dec(r["inp"]), "args": {k: fu.dec(v) for k, v in r["args"].items()},
          "tmpl": how["tmpl"], "pos": how["pos"], "kw": how["kw"], "markup": how["markup"]}
+    if how.get("src"):
+        c["src"], c["whole"] = how["src"], how["whole"]
     recs, _ = observe_case(c)
     report(ck, fu.tlc_validate(ck, "HtmlScanTrace", recs, label="replay"))
